@@ -434,8 +434,58 @@ class C03(Check):
                     detail['dom_first_difference'] = [repr(a)[:800], repr(b)[:800]]
                     break
             detail['dom_rule_counts'] = [len(p1), len(p2)]
+        if known is None and variant == 'default' and isinstance(witness, dict) and 'css' in witness and \
+                not any(witness.get(k) for k in ('op', 'ops', 'edits', 'edits_applied', 'node', 'file', 'serialised_after_edits')):
+            # a source text alone fails outside every known region: report the smallest text found that still does
+            small = self.shrink_css(cssutils, witness['css'], fix_ok)
+            if small is not None and len(small) < len(witness['css']):
+                detail['original_css'] = witness['css'][:2000]
+                witness = dict(witness, css=small, shrunk=True)
         ctx.violate(self.CLAUSE_FIX if not fix_ok else self.CLAUSE_DOM, witness, detail, known=known)
         return False
+
+    def fails_alone(self, cssutils, css, fix_was_ok):
+        """does `css` (a source text) break the same clause, outside every known region?"""
+        try:
+            with time_limit(10):
+                sheet = self.parser.parseString(css)
+                if self.regions_of(cssutils, [css], encoding=sheet.encoding) or self.dom_regions(cssutils, sheet):
+                    return False
+                t1, t2, p1, p2 = self.roundtrip(cssutils, sheet)
+        except Exception:
+            return False
+        return (t1 == t2) == fix_was_ok and not (t1 == t2 and p1 == p2)
+
+    def shrink_css(self, cssutils, css, fix_was_ok, trials=120, seconds=8.0):
+        """delta debugging over the token texts of `css` (characters when the tokens do not tile the text)"""
+        import time
+        t0 = time.time()
+        try:
+            toks = list(self.tk.tokenize(css, fullsheet=True))
+            pieces = S.raw_texts(css, toks[:-1] if toks and toks[-1][0] == 'EOF' else toks)
+        except Exception:
+            pieces = None
+        if not pieces:
+            pieces = list(css)
+        if not self.fails_alone(cssutils, ''.join(pieces), fix_was_ok):
+            return None
+        n = 2
+        while len(pieces) >= 2 and trials > 0 and time.time() - t0 < seconds:
+            size = max(1, len(pieces) // n)
+            removed = False
+            for start in range(0, len(pieces), size):
+                cand = pieces[:start] + pieces[start + size:]
+                trials -= 1
+                if cand and self.fails_alone(cssutils, ''.join(cand), fix_was_ok):
+                    pieces, n, removed = cand, max(n - 1, 2), True
+                    break
+                if trials <= 0 or time.time() - t0 >= seconds:
+                    break
+            if not removed:
+                if size == 1:
+                    break
+                n = min(len(pieces), n * 2)
+        return ''.join(pieces)
 
     def regions_of(self, cssutils, texts, raws=(), encoding='utf-8', ident_form='either', edit_texts=()):
         regs = set()
